@@ -27,8 +27,8 @@ ENTRY_POOL = ["call", "transform", "schema", "dataclass", "return", "param"]
 EXACT = ("int", "decimal", "str", "bytes", "list", "tuple")
 
 OPTION_SETS = st.fixed_dictionaries({}, optional={
-    "no_explicit_cast": st.just(True),
-    "no_data_loss": st.just(True),
+    "no_explicit_cast": st.sampled_from([True, True, False]),      # (False spelled out: the same as not giving the flag)
+    "no_data_loss": st.sampled_from([True, True, False]),
     "invalid_items": st.just("exclude"),
     "invalid_values": st.just("exclude"),
     "invalid_keys": st.just("exclude"),
@@ -413,3 +413,31 @@ def campaign(ctx):
                             except HarnessError:
                                 ctx.label("grid_case_not_buildable")
     ctx.extra["collision_grid_exhaustive"] = True
+    # unions whose earlier member could re-interpret a later member's output (the strict first stage prevents it), under every
+    # spelling of the conversion flags - False spelled out included: enumerated completely
+    L = lambda a: {"k": "list", "a": {"k": "leaf", "o": a}}
+    unions = [[{"k": "leaf", "o": "int"}, L("int")], [{"k": "leaf", "o": "float"}, L("datetime")], [{"k": "leaf", "o": "str"}, L("str")], [{"k": "leaf", "o": "bool"}, L("int")],
+              [{"k": "leaf", "o": "int"}, {"k": "dict", "key": {"k": "leaf", "o": "str"}, "val": {"k": "leaf", "o": "int"}}], [{"k": "leaf", "o": "date"}, L("date")]]
+    inputs = ["[7]", "1,2", "[1]", {"t": "list", "v": [7]}, {"t": "list", "v": ["2020-01-01"]}, {"t": "list", "v": ["x"]}, {"t": "list", "v": [True]}, "7", 7, '{"a": 1}',
+              {"t": "dict", "v": [["a", "1"]]}, {"t": "tuple", "v": [3]}, {"t": "list", "v": [{"t": "float", "v": "1.5"}]}]
+    flagsets = [{}, {"no_explicit_cast": False}, {"no_data_loss": False}, {"no_explicit_cast": False, "no_data_loss": False}, {"no_data_loss": True}, {"collect_errors": True, "no_explicit_cast": False}]
+    for args in unions:
+        for order in (args, args[::-1]):
+            for v in inputs:
+                for fl in flagsets:
+                    idx += 1
+                    if idx % ctx.nshards != ctx.shard:
+                        continue
+                    ctx.ev()
+                    case = {"type": {"k": "union", "a": list(order), "m": "annotate"}, "value": v, "options": dict(fl), "entry": ("call", "schema")[idx % 2]}
+                    try:
+                        body(case)
+                        if fl and not any(fl.values()):
+                            # flags spelled out as False mean "not given": the same input must behave exactly as with no flags at all
+                            # (ordered unions are not idempotent in general - KF-C03-05 - but never BECAUSE of the spelling)
+                            a = [f[0] for f in run_case(dict(case, options={}))["fails"]]
+                            b = [f[0] for f in run_case(case)["fails"]]
+                            if b and not a:
+                                ctx.fail("not-idempotent-only-when-the-flags-are-spelled-out-as-false/" + b[0].split("/")[0], case, {"with_false_flags": b, "without_flags": a})
+                    except HarnessError:
+                        ctx.label("grid_case_not_buildable")
